@@ -60,6 +60,18 @@ append(load_log, 'needs_broken');
 require broken;
 def nb = 1;
 """,
+    # public mutable data next to its accessors
+    "state": """
+append(load_log, 'state');
+def counter = 0;
+def bump() do counter = counter + 1; counter end;
+def current() counter;
+""",
+    "uses_state": """
+append(load_log, 'uses_state');
+require state;
+def seen() state->counter;
+""",
     "shadow": """
 append(load_log, 'shadow');
 def pub = 'from shadow';
